@@ -31,7 +31,7 @@ import os
 import sys
 
 sys.path.insert(0, os.path.dirname(os.path.dirname(os.path.abspath(__file__))))
-from sa import core, pyfacts as pf, cfg as cfgm, batch, effects  # noqa: E402
+from sa import core, pyfacts as pf, cfg as cfgm, batch, effects, ksrules as ks  # noqa: E402
 from sa.selftest import Mutant  # noqa: E402
 
 PROP = "C09"
@@ -112,12 +112,10 @@ def is_buffer(f, p):
 # rule 1: batch-index discipline
 # ----------------------------------------------------------------------------
 def batch_functions(tree):
-    mods = {}
     out = []
     for rel, name in BATCH_FUNCS:
-        if rel not in mods:
-            mods[rel] = pf.Module(tree, rel)
-        out.append(batch.BatchFunction(mods[rel].func(name), rel))
+        rel2, fn = ks.locate(tree, rel, name)
+        out.append(batch.BatchFunction(fn, rel2))
     return out
 
 
@@ -224,36 +222,56 @@ def rule_cache_typestate(chk, bfs):
                     chk.violation("cache-typestate", rel, fn.name, construct, c.lineno, why, instance=inst)
     chk.count("generator consume sites", n_sites)
     # spin slot forwarded unchanged to the plan-level caches
-    mod = pf.Module(chk.tree, GEN)
+    gprog = pf.Program(chk.tree, [GEN])
+    gmod = gprog.module(GEN)
+    gcls = gmod.cls("LCAONLDFGenerator")
     for meth, callee in (("get_features", "eval_rho_full"), ("get_potential", "eval_vxc_full")):
-        fn = mod.func("LCAONLDFGenerator." + meth)
+        r = gprog.find_method(gmod, gcls, meth)
+        if r is None:
+            raise core.AnalysisError("LCAONLDFGenerator.%s not found (also not through the MRO)" % meth)
+        fn = r[2]
         if "spin" not in [a.arg for a in fn.args.args]:
             raise core.AnalysisError("LCAONLDFGenerator.%s lost its spin parameter" % meth)
-        calls = [n for n in pf.walk_no_nested(fn) if isinstance(n, ast.Call) and isinstance(n.func, ast.Attribute)
-                 and n.func.attr == callee]
+        # the method itself and the self-helpers it hands its spin slot to (one level of extraction)
+        scopes = [(fn, "spin")]
+        for n in pf.walk_no_nested(fn):
+            if isinstance(n, ast.Call) and pf.is_self_attr(n.func):
+                rr = gprog.find_method(gmod, gcls, n.func.attr)
+                if rr is None:
+                    continue
+                hp = [a.arg for a in rr[2].args.args[1:]]
+                name = None
+                for i, a in enumerate(n.args):
+                    if isinstance(a, ast.Name) and a.id == "spin" and i < len(hp):
+                        name = hp[i]
+                for k in n.keywords:
+                    if isinstance(k.value, ast.Name) and k.value.id == "spin" and k.arg in hp:
+                        name = k.arg
+                scopes.append((rr[2], name))
+        calls = [(n, nm) for f_, nm in scopes for n in pf.walk_no_nested(f_)
+                 if isinstance(n, ast.Call) and isinstance(n.func, ast.Attribute) and n.func.attr == callee]
         if not calls:
             raise core.AnalysisError("LCAONLDFGenerator.%s no longer calls plan.%s" % (meth, callee))
-        for c in calls:
+        for c, nm in calls:
             kw = [k for k in c.keywords if k.arg == "spin"]
             inst = "%s:LCAONLDFGenerator.%s -> plan.%s(spin=spin)" % (GEN, meth, callee)
-            if kw and pf.src(kw[0].value) == "spin":
+            if kw and nm is not None and pf.src(kw[0].value) == nm:
                 chk.ok("cache-typestate", inst)
             else:
                 chk.violation("cache-typestate", GEN, "LCAONLDFGenerator." + meth, "%s(...)" % pf.src(c.func), c.lineno,
                               "the generator's spin slot is not forwarded to plan.%s (found spin=%s): the plan-level "
                               "caches _cached_p_i_qg/_cached_l1_data of the two spin channels are mixed up" % (
                                   callee, pf.src(kw[0].value) if kw else "<default 0>"), instance=inst)
-        # the generator's own cache is indexed by that same parameter
-        subs = [n for n in pf.walk_no_nested(fn) if isinstance(n, ast.Subscript) and pf.is_self_attr(n.value, "_cache")]
-        if not subs:
-            raise core.AnalysisError("LCAONLDFGenerator.%s no longer uses self._cache[...]" % meth)
-        for s in subs:
-            inst = "%s:LCAONLDFGenerator.%s %s" % (GEN, meth, pf.src(s))
-            if pf.src(s.slice) == "spin":
+        # the generator's own per-spin cache is indexed by that same parameter
+        subs = [(n, nm) for f_, nm in scopes for n in pf.walk_no_nested(f_)
+                if isinstance(n, ast.Subscript) and pf.is_self_attr(n.value) and n.value.attr.startswith("_cache")]
+        for s_, nm in subs:
+            inst = "%s:LCAONLDFGenerator.%s %s" % (GEN, meth, pf.src(s_))
+            if nm is not None and pf.src(s_.slice) == nm:
                 chk.ok("cache-typestate", inst, nontrivial=False)
             else:
-                chk.violation("cache-typestate", GEN, "LCAONLDFGenerator." + meth, pf.src(s), s.lineno,
-                              "cache slot %s is not the slot of the `spin` argument" % pf.src(s.slice), instance=inst)
+                chk.violation("cache-typestate", GEN, "LCAONLDFGenerator." + meth, pf.src(s_), s_.lineno,
+                              "cache slot %s is not the slot of the `spin` argument" % pf.src(s_.slice), instance=inst)
 
 
 def _chain(node, scope):
@@ -333,7 +351,11 @@ def api_entries(P):
                 continue
             entries[f.key] = f
     for rel, q in EXPLICIT_API:
-        entries[(rel, q)] = P.func(rel, q)
+        rel2, node = ks.locate(P.tree, rel, q)
+        f = P.funcs.get((rel2, pf.qualname(node)))
+        if f is None:
+            raise core.AnalysisError("API entry %s:%s is defined in %s, outside the analysed modules" % (rel, q, rel2))
+        entries[f.key] = f
     return entries
 
 
@@ -485,10 +507,9 @@ def rule_cache_alias(chk, P):
     for (rel, cname, attr), g in sorted(scratch.items()):
         chk.ok("cache-alias", "%s:%s.%s is a per-object buffer rewritten in place (%s); no keyed state aliases it" % (
             rel, cname, attr, g.node.name))
-    want = ("ciderpress/dft/lcao_nldf_generator.py", "LCAONLDFGenerator", "_vq_buf")
-    if want not in scratch:
-        raise core.AnalysisError("the convolution buffer LCAONLDFGenerator._vq_buf is no longer recognised as a "
-                                 "buffer rewritten in place: the cache-alias rule would pass vacuously")
+    if len(scratch) < 3:
+        raise core.AnalysisError("only %d per-object buffers rewritten in place are recognised (the generator's "
+                                 "convolution buffers used to be): the cache-alias rule would pass vacuously" % len(scratch))
     chk.count("per-object buffers rewritten in place", len(scratch))
 
 
@@ -554,25 +575,46 @@ def _guarded_constructions(fn, params):
     return out
 
 
+def _reinit_definitions(prog, mod):
+    """-> [(class defining the method, fn, [super() chains: the definitions that follow it in the MRO of each
+    class through which it is reached])]; definitions are found through the MRO, so moving the method into a
+    mixin / base class changes nothing"""
+    defs = {}
+    order = []
+    allc = list(prog.all_classes())
+    # super() is resolved in the MRO of the classes that are actually instantiated: the leaves of the hierarchy
+    # (a mixin on its own has no next class)
+    leaves = [(m2, K) for m2, K in allc
+              if not any(c2 is not K and any(cc is K for _, cc in prog.mro(m3, c2)) for m3, c2 in allc)]
+    for m2, K in leaves:
+        chain = [(c, pf.methods(c)[REINIT_METHOD]) for _, c in prog.mro(m2, K) if REINIT_METHOD in pf.methods(c)]
+        for i, (c, fn) in enumerate(chain):
+            if id(fn) not in defs:
+                defs[id(fn)] = (c, fn, [])
+                order.append(id(fn))
+            rest = [f for _, f in chain[i + 1:]]
+            if rest not in defs[id(fn)][2]:
+                defs[id(fn)][2].append(rest)
+    return [defs[k] for k in order]
+
+
 def rule_reinit(chk):
-    mod = pf.Module(chk.tree, NUMINT)
     prog = pf.Program(chk.tree, [NUMINT])
-    classes = [c for c in mod.classes.values() if REINIT_METHOD in pf.methods(c)]
-    for cname in REINIT_CLASSES:
-        if cname not in [c.name for c in classes]:
-            raise core.AnalysisError("%s.%s vanished" % (cname, REINIT_METHOD))
-    chk.count("classes defining initialize_feature_generators", len(classes))
+    mod = prog.module(NUMINT)
+    definitions = _reinit_definitions(prog, mod)
+    if not definitions:
+        raise core.AnalysisError("no class of %s defines %s" % (NUMINT, REINIT_METHOD))
+    chk.count("definitions of initialize_feature_generators", len(definitions))
     info = {}
-    for cls in classes:
+    seen_attrs = set()
+    for cls, fn, chains in definitions:
         cname = cls.name
-        fn = pf.methods(cls)[REINIT_METHOD]
         params = [a.arg for a in fn.args.args[1:]]
         fq = "%s.%s" % (cname, REINIT_METHOD)
         cons = _guarded_constructions(fn, params)
-        if not cons:
-            raise core.AnalysisError("%s: no construction from (%s) found" % (fq, ", ".join(params)))
         for asg, guard, used in cons:
             gen_attr = asg.targets[0].attr
+            seen_attrs.add(gen_attr)
             ctor_src = pf.src(asg.value.func)
             if guard is None:
                 chk.ok("reinit", "%s:%s self.%s is rebuilt on every call" % (NUMINT, fq, gen_attr), nontrivial=False)
@@ -623,7 +665,7 @@ def rule_reinit(chk):
                 if attr == gen_attr:
                     continue
                 inst = "%s:%s records self.%s = %s" % (NUMINT, fq, attr, p)
-                if _assigns_on_all_paths(prog, mod, cls, fn, attr, p):
+                if all(_assigns_on_all_paths(mod, fn, attr, p, ch) for ch in chains):
                     chk.ok("reinit", inst)
                 else:
                     chk.violation("reinit", NUMINT, fq, "self.%s = %s" % (attr, p), fn.lineno,
@@ -634,6 +676,10 @@ def rule_reinit(chk):
             follow = [st.value for st in guard.body if isinstance(st, ast.Expr) and isinstance(st.value, ast.Call)
                       and pf.base_name(st.value.func) == "self"]
             info[(cname, gen_attr)] = (gen_attr, ctor_src, follow, fn)
+    for need in ("sdmxgen", "nldfgen"):
+        if need not in seen_attrs:
+            raise core.AnalysisError("no %s constructs self.%s any more: the generator keyed on (mol, grids, nspin) "
+                                     "is not where the rule looks" % (REINIT_METHOD, need))
     # (c) siblings that build the same object with the same initializer prepare it alike
     groups = {}
     for (cname, gen_attr), (_g, ctor_src, follow, fn) in info.items():
@@ -677,37 +723,83 @@ def rule_reinit_reset(chk):
                 kept.add(asg.targets[0].attr)
     if len(kept) < 2:
         raise core.AnalysisError("expected at least the sdmx and nldf generators to be kept across calls, found %s" % sorted(kept))
-    mix = mod.cls("CiderNumIntMixin")
-    for hook in ("reset", "build"):
-        fn = pf.methods(mix).get(hook)
-        if fn is None:
-            raise core.AnalysisError("CiderNumIntMixin.%s vanished" % hook)
+    prog = pf.Program(chk.tree, [NUMINT])
+    # the hooks as seen by the concrete integrator classes (resolved through the MRO)
+    concrete = [(m2, c) for m2, c in prog.all_classes()
+                if any(REINIT_METHOD in pf.methods(cc) for _, cc in prog.mro(m2, c))]
+    hooks = {}
+    for m2, c in concrete:
+        for hook in ("reset", "build"):
+            r = prog.find_method(m2, c, hook)
+            if r is not None:
+                hooks.setdefault((hook, id(r[2])), (r[1], r[2], m2, c))
+    if not any(h == "reset" for h, _ in hooks):
+        raise core.AnalysisError("no reset() hook found on the integrator classes of %s" % NUMINT)
+
+    def clears(fn, attr, owner_mod, owner_cls, depth=0):
         g = cfgm.CFG(fn)
+
+        def pred(n):
+            st = n.ast
+            if n.kind != "stmt" or st is None:
+                return False
+            if isinstance(st, ast.Assign):
+                if isinstance(st.value, ast.Constant) and st.value.value is None \
+                        and any(pf.is_self_attr(t, attr) for t in st.targets):
+                    return True
+                if isinstance(st.value, ast.Tuple) and len(st.targets) == 1 and isinstance(st.targets[0], ast.Tuple):
+                    for t, v in zip(st.targets[0].elts, st.value.elts):
+                        if pf.is_self_attr(t, attr) and isinstance(v, ast.Constant) and v.value is None:
+                            return True
+            if isinstance(st, ast.Expr) and isinstance(st.value, ast.Call) and isinstance(st.value.func, ast.Attribute) \
+                    and depth < 2:
+                f_ = st.value.func
+                if pf.is_self_attr(f_) or (isinstance(f_.value, ast.Call) and pf.src(f_.value.func) == "super"):
+                    r = prog.find_method(owner_mod, owner_cls, f_.attr)
+                    if r is not None and r[2] is not fn:
+                        return clears(r[2], attr, owner_mod, owner_cls, depth + 1)
+            return False
+        ok, _w = g.must_pass(pred)
+        return ok
+
+    for (hook, _id), (dcls, fn, m2, c) in sorted(hooks.items(), key=lambda x: (x[0][0], x[1][0].name)):
         for attr in sorted(kept):
-            inst = "%s:CiderNumIntMixin.%s clears self.%s on every path" % (NUMINT, hook, attr)
-            ok, _w = g.must_pass(lambda n, a=attr: n.kind == "stmt" and isinstance(n.ast, ast.Assign)
-                                 and any(pf.is_self_attr(t, a) for t in n.ast.targets)
-                                 and isinstance(n.ast.value, ast.Constant) and n.ast.value.value is None)
-            if ok:
+            inst = "%s:%s.%s clears self.%s on every path" % (NUMINT, dcls.name, hook, attr)
+            if clears(fn, attr, m2, c):
                 chk.ok("reinit-reset", inst)
             else:
-                chk.violation("reinit-reset", NUMINT, "CiderNumIntMixin.%s" % hook, "self.%s = None" % attr, fn.lineno,
+                chk.violation("reinit-reset", NUMINT, "%s.%s" % (dcls.name, hook), "self.%s = None" % attr, fn.lineno,
                               "self.%s is kept across calls by %s and is only compared by identity with mol/grids; "
                               "%s() does not set it to None on every path, so after an in-place geometry change the "
                               "stale generator is reused" % (attr, REINIT_METHOD, hook), instance=inst)
     DFT = "ciderpress/pyscf/dft.py"
-    dm = pf.Module(chk.tree, DFT)
+    dprog = pf.Program(chk.tree, [DFT])
+    dm = dprog.module(DFT)
+    ks_cls = dm.cls("_CiderKS")
     for hook in ("reset", "build"):
-        fn = dm.func("_CiderKS.%s" % hook)
-        g = cfgm.CFG(fn)
+        r = dprog.find_method(dm, ks_cls, hook)
+        if r is None:
+            raise core.AnalysisError("_CiderKS.%s not found (also not through the MRO)" % hook)
+        fn = r[2]
         inst = "%s:_CiderKS.%s reaches self._numint.%s on every path" % (DFT, hook, hook)
 
-        def is_hook(n, h=hook):
-            if n.kind != "stmt" or n.ast is None:
+        def reaches(f_, h=hook, depth=0):
+            g = cfgm.CFG(f_)
+
+            def is_hook(n):
+                if n.kind != "stmt" or n.ast is None:
+                    return False
+                for c_ in ast.walk(n.ast):
+                    if isinstance(c_, ast.Call) and pf.src(c_.func) == "self._numint.%s" % h:
+                        return True
+                    if isinstance(c_, ast.Call) and pf.is_self_attr(c_.func) and depth < 1:
+                        rr = dprog.find_method(dm, ks_cls, c_.func.attr)
+                        if rr is not None and rr[2] is not f_ and reaches(rr[2], h, depth + 1):
+                            return True
                 return False
-            return any(isinstance(c, ast.Call) and pf.src(c.func) == "self._numint.%s" % h for c in ast.walk(n.ast))
-        ok, _w = g.must_pass(is_hook)
-        if ok:
+            ok_, _w = g.must_pass(is_hook)
+            return ok_
+        if reaches(fn):
             chk.ok("reinit-reset", inst)
         else:
             chk.violation("reinit-reset", DFT, "_CiderKS.%s" % hook, "self._numint.%s(...)" % hook, fn.lineno,
@@ -717,27 +809,50 @@ def rule_reinit_reset(chk):
                           "are computed with the old atom positions and grids" % (hook, hook), instance=inst)
 
 
-def _assigns_on_all_paths(prog, mod, cls, fn, attr, param, _depth=0):
+def _assigns_on_all_paths(mod, fn, attr, param, chain, _depth=0):
+    """every normal path of fn executes `self.attr = param`, itself, through the super() chain (`chain`: the
+    definitions that follow in the MRO), or through a self-helper it calls with the parameter"""
     g = cfgm.CFG(fn)
 
     def is_assign(n):
         st = n.ast
         if n.kind != "stmt":
             return False
-        if isinstance(st, ast.Assign) and any(pf.is_self_attr(t, attr) for t in st.targets) \
-                and isinstance(st.value, ast.Name) and st.value.id == param:
-            return True
-        # super().initialize_feature_generators(mol, grids, nspin) forwarding the same parameter
-        if isinstance(st, ast.Expr) and isinstance(st.value, ast.Call) and isinstance(st.value.func, ast.Attribute) \
-                and pf.src(st.value.func.value) == "super()" and st.value.func.attr == fn.name and _depth < 4:
-            if not any(isinstance(a, ast.Name) and a.id == param for a in st.value.args):
+        if isinstance(st, ast.Assign) and isinstance(st.value, ast.Name) and st.value.id == param:
+            if any(pf.is_self_attr(t, attr) for t in st.targets):
+                return True
+        if isinstance(st, ast.Assign) and isinstance(st.value, ast.Tuple) and len(st.targets) == 1 \
+                and isinstance(st.targets[0], ast.Tuple) and len(st.targets[0].elts) == len(st.value.elts):
+            for t, v in zip(st.targets[0].elts, st.value.elts):
+                if pf.is_self_attr(t, attr) and isinstance(v, ast.Name) and v.id == param:
+                    return True
+        if not (isinstance(st, ast.Expr) and isinstance(st.value, ast.Call) and isinstance(st.value.func, ast.Attribute)):
+            return False
+        call = st.value
+        recv = call.func.value
+        args = list(call.args) + [k.value for k in call.keywords]
+        if not any(isinstance(a, ast.Name) and a.id == param for a in args) or _depth >= 4:
+            return False
+        # super().<same method>(mol, grids, nspin) forwarding the parameter
+        if isinstance(recv, ast.Call) and pf.src(recv.func) == "super" and call.func.attr == fn.name:
+            if not chain:
                 return False
-            for m2, c2 in prog.mro(mod, cls)[1:]:
-                f2 = pf.methods(c2).get(fn.name)
-                if f2 is not None:
-                    # the first definition after `cls` in the MRO is the one super() reaches
-                    return param in [a.arg for a in f2.args.args] \
-                        and _assigns_on_all_paths(prog, m2, c2, f2, attr, param, _depth + 1)
+            f2 = chain[0]
+            return param in [a.arg for a in f2.args.args] and _assigns_on_all_paths(mod, f2, attr, param, chain[1:], _depth + 1)
+        # self._helper(..., param, ...): one level of helper extraction
+        if isinstance(recv, ast.Name) and recv.id == "self":
+            cands = [pf.methods(c)[call.func.attr] for c in mod.classes.values() if call.func.attr in pf.methods(c)]
+            if len(cands) == 1:
+                h = cands[0]
+                hp = [a.arg for a in h.args.args[1:]]
+                name = None
+                for i, a in enumerate(call.args):
+                    if isinstance(a, ast.Name) and a.id == param and i < len(hp):
+                        name = hp[i]
+                for k in call.keywords:
+                    if isinstance(k.value, ast.Name) and k.value.id == param and k.arg in hp:
+                        name = k.arg
+                return name is not None and _assigns_on_all_paths(mod, h, attr, name, [], _depth + 1)
         return False
 
     ok, _ = g.must_pass(is_assign)
@@ -750,50 +865,135 @@ def _assigns_on_all_paths(prog, mod, cls, fn, attr, param, _depth=0):
 WRAP = {"np.float64", "float", "int", "np.int32", "np.asarray"}
 
 
+def _ctor_entries(fn):
+    """name -> value expression of everything `new()` hands to the constructor: keywords of the constructing call
+    (`self.__class__(...)`, `type(self)(...)`, `cls(...)`) and the entries of the mapping it splats with `**`,
+    whether written as dict(k=v, ...), a {...} literal, or filled by `d["k"] = v` stores."""
+    entries, lines = {}, {}
+
+    def add_mapping(v):
+        if isinstance(v, ast.Dict):
+            for k, val in zip(v.keys, v.values):
+                if k is None:
+                    add_mapping(val)
+                elif isinstance(k, ast.Constant) and isinstance(k.value, str):
+                    entries[k.value] = val
+                    lines[k.value] = val.lineno
+                else:
+                    raise core.AnalysisError("NLDFAuxiliaryPlan.new: non-literal key %s" % pf.src(k))
+        elif isinstance(v, ast.Call) and pf.call_name(v) == "dict":
+            for a in v.args:
+                add_mapping(a)
+            for k in v.keywords:
+                if k.arg is None:
+                    add_mapping(k.value)
+                else:
+                    entries[k.arg] = k.value
+                    lines[k.arg] = k.value.lineno
+        elif isinstance(v, ast.Name):
+            add_name(v.id)
+
+    def add_name(name):
+        if name in [a.arg for a in fn.args.args] or (fn.args.kwarg and fn.args.kwarg.arg == name):
+            return  # the caller's overrides
+        for n in pf.walk_no_nested(fn):
+            if isinstance(n, ast.Assign) and any(isinstance(t, ast.Name) and t.id == name for t in n.targets):
+                add_mapping(n.value)
+            if isinstance(n, ast.Assign) and any(isinstance(t, ast.Subscript) and isinstance(t.value, ast.Name)
+                                                 and t.value.id == name and isinstance(t.slice, ast.Constant)
+                                                 for t in n.targets):
+                for t in n.targets:
+                    entries[t.slice.value] = n.value
+                    lines[t.slice.value] = n.lineno
+
+    found = False
+    for n in pf.walk_no_nested(fn):
+        if isinstance(n, ast.Call) and pf.src(n.func) in ("self.__class__", "type(self)", "cls", "self.__class__.__call__"):
+            found = True
+            for k in n.keywords:
+                if k.arg is None:
+                    add_mapping(k.value)
+                else:
+                    entries[k.arg] = k.value
+                    lines[k.arg] = k.value.lineno
+    if not found:
+        raise core.AnalysisError("NLDFAuxiliaryPlan.new: no `self.__class__(...)` / `type(self)(...)` call found")
+    return entries, lines
+
+
+def _init_attr_assignments(prog, mod, cls, init, attr):
+    """[(statement, value expr with helper parameters renamed to the __init__ argument they receive)] for
+    self.attr in __init__ and in the self-methods __init__ calls directly (one level of helper extraction)"""
+    out = []
+
+    def scan(fn, rename):
+        for n in pf.walk_no_nested(fn):
+            if isinstance(n, ast.Assign) and any(pf.is_self_attr(t, attr) for t in n.targets):
+                out.append((n, n.value, rename))
+            elif isinstance(n, ast.AugAssign) and pf.is_self_attr(n.target, attr):
+                out.append((n, None, rename))
+    scan(init, {})
+    for n in pf.walk_no_nested(init):
+        if isinstance(n, ast.Call) and isinstance(n.func, ast.Attribute) and pf.is_self_attr(n.func):
+            r = prog.find_method(mod, cls, n.func.attr)
+            if r is None:
+                continue
+            h = r[2]
+            hp = [a.arg for a in h.args.args[1:]]
+            rename = {}
+            for i, a in enumerate(n.args):
+                if i < len(hp) and isinstance(a, ast.Name):
+                    rename[hp[i]] = a.id
+            for k in n.keywords:
+                if k.arg in hp and isinstance(k.value, ast.Name):
+                    rename[k.arg] = k.value.id
+            scan(h, rename)
+    return out
+
+
 def rule_ctor_roundtrip(chk):
-    mod = pf.Module(chk.tree, PLANS)
+    prog = pf.Program(chk.tree, [PLANS])
+    mod = prog.module(PLANS)
     cls = mod.cls("NLDFAuxiliaryPlan")
-    new = mod.func("NLDFAuxiliaryPlan.new")
-    init = mod.func("NLDFAuxiliaryPlan.__init__")
-    params = [a.arg for a in init.args.args[1:]]
-    d = None
-    for n in pf.walk_no_nested(new):
-        if isinstance(n, ast.Call) and pf.call_name(n) == "dict" and n.keywords:
-            d = n
-    if d is None:
-        raise core.AnalysisError("NLDFAuxiliaryPlan.new: `dict(name=self.attr, ...)` not found")
+    r_new = prog.find_method(mod, cls, "new")
+    r_init = prog.find_method(mod, cls, "__init__")
+    if r_new is None or r_init is None:
+        raise core.AnalysisError("NLDFAuxiliaryPlan.new / __init__ not found (also not through the MRO)")
+    new, init = r_new[2], r_init[2]
+    params = [a.arg for a in init.args.args[1:]] + [a.arg for a in init.args.kwonlyargs]
+    entries, lines = _ctor_entries(new)
     fed = {}
-    for k in d.keywords:
-        if k.arg is None:
-            raise core.AnalysisError("NLDFAuxiliaryPlan.new: unrecognised entry %s" % pf.src(k))
-        if not pf.is_self_attr(k.value):
+    for k, v in entries.items():
+        if not pf.is_self_attr(v):
             # a computed value (e.g. an explicit inverse of the constructor's transformation): not decided
-            chk.ok("ctor-roundtrip", "%s:NLDFAuxiliaryPlan.new %s=<computed>" % (PLANS, k.arg), nontrivial=False)
+            chk.ok("ctor-roundtrip", "%s:NLDFAuxiliaryPlan.new %s=<computed>" % (PLANS, k), nontrivial=False)
             chk.note("ctor-roundtrip", "%s:NLDFAuxiliaryPlan.new" % PLANS,
                      "%s is fed back as the computed value `%s`; whether it inverts __init__ is not decided" % (
-                         k.arg, pf.src(k.value)))
+                         k, pf.src(v)))
             continue
-        fed[k.arg] = k.value.attr
+        fed[k] = v.attr
     for p, attr in sorted(fed.items()):
         inst = "%s:NLDFAuxiliaryPlan.new %s=self.%s" % (PLANS, p, attr)
         if p not in params:
-            chk.violation("ctor-roundtrip", PLANS, "NLDFAuxiliaryPlan.new", "%s=self.%s" % (p, attr), d.lineno,
+            chk.violation("ctor-roundtrip", PLANS, "NLDFAuxiliaryPlan.new", "%s=self.%s" % (p, attr), lines[p],
                           "new() passes %r, which is not a constructor parameter" % p, instance=inst)
             continue
         bad = []
-        n_assign = 0
-        for n in pf.walk_no_nested(init):
-            if isinstance(n, ast.Assign) and any(pf.is_self_attr(t, attr) for t in n.targets):
-                n_assign += 1
-                v = n.value
-                while isinstance(v, ast.Call) and pf.call_name(v) in WRAP and len(v.args) == 1:
-                    v = v.args[0]
-                if not (isinstance(v, ast.Name) and v.id == p):
-                    bad.append(n)
-            elif isinstance(n, ast.AugAssign) and pf.is_self_attr(n.target, attr):
+        assigns = _init_attr_assignments(prog, mod, cls, init, attr)
+        for n, v, rename in assigns:
+            if v is None:
                 bad.append(n)
-        if n_assign == 0:
-            raise core.AnalysisError("NLDFAuxiliaryPlan.__init__ never assigns self.%s" % attr)
+                continue
+            while isinstance(v, ast.Call) and pf.call_name(v) in WRAP and len(v.args) == 1:
+                v = v.args[0]
+            if not (isinstance(v, ast.Name) and rename.get(v.id, v.id) == p):
+                bad.append(n)
+        if not assigns:
+            # a class-level default or an attribute set elsewhere: not decided rather than an error
+            chk.ok("ctor-roundtrip", inst + " (attribute not assigned in __init__: not decided)", nontrivial=False)
+            chk.note("ctor-roundtrip", "%s:NLDFAuxiliaryPlan.__init__" % PLANS,
+                     "self.%s, fed back by new() as %r, is not assigned in __init__ or its direct helpers" % (attr, p))
+            continue
         if bad:
             b = bad[0]
             chk.violation("ctor-roundtrip", PLANS, "NLDFAuxiliaryPlan.new", "%s=self.%s" % (p, attr), b.lineno,
@@ -803,11 +1003,10 @@ def rule_ctor_roundtrip(chk):
         else:
             chk.ok("ctor-roundtrip", inst)
     for p in params:
-        if p not in fed and p not in [k.arg for k in d.keywords]:
+        if p not in fed and p not in entries:
             chk.note("ctor-roundtrip", "%s:NLDFAuxiliaryPlan.new" % PLANS,
                      "constructor parameter %r is not forwarded by new(): the copy gets the default" % p)
     # subclasses with extra constructor parameters
-    prog = pf.Program(chk.tree, [PLANS])
     for m, c in prog.subclasses("NLDFAuxiliaryPlan"):
         if c is cls:
             continue
@@ -823,56 +1022,110 @@ def rule_ctor_roundtrip(chk):
 # ----------------------------------------------------------------------------
 # rule 6: chunk loop
 # ----------------------------------------------------------------------------
+def _single_defs(fn, exclude=()):
+    """local names with exactly one plain assignment in fn -> value expr"""
+    cnt, val = {}, {}
+    for n in pf.walk_no_nested(fn):
+        tg = []
+        if isinstance(n, ast.Assign):
+            tg = n.targets
+        elif isinstance(n, (ast.AugAssign, ast.AnnAssign)):
+            tg = [n.target]
+        elif isinstance(n, (ast.For, ast.comprehension)):
+            tg = [n.target]
+        for t in tg:
+            for x in ast.walk(t):
+                if isinstance(x, ast.Name):
+                    cnt[x.id] = cnt.get(x.id, 0) + 1
+                    if isinstance(n, ast.Assign) and len(n.targets) == 1 and t is x:
+                        val[x.id] = n.value
+                    else:
+                        cnt[x.id] += 1
+    return {k: v for k, v in val.items() if cnt.get(k) == 1 and k not in exclude}
+
+
+def _norm(e, defs, depth=0):
+    """source text of e with single-assignment locals replaced by their definition (bounded depth)"""
+    if isinstance(e, ast.Name) and e.id in defs and depth < 4:
+        return _norm(defs[e.id], defs, depth + 1)
+    if isinstance(e, ast.Call) and pf.call_name(e) == "len" and len(e.args) == 1:
+        return _norm(e.args[0], defs, depth) + ".shape[0]"
+    if isinstance(e, ast.BinOp):
+        return "(%s%s%s)" % (_norm(e.left, defs, depth), type(e.op).__name__, _norm(e.right, defs, depth))
+    if isinstance(e, ast.Call) and isinstance(e.func, ast.Name):
+        return "%s(%s)" % (e.func.id, ",".join(_norm(a, defs, depth) for a in e.args))
+    return pf.src(e).replace(" ", "")
+
+
 def rule_chunk_loop(chk):
-    mod = pf.Module(chk.tree, XE)
-    fn = mod.func("KernelEvaluator.__call__")
+    prog = pf.Program(chk.tree, [XE])
+    mod = prog.module(XE)
+    r = prog.find_method(mod, mod.cls("KernelEvaluator"), "__call__")
+    if r is None:
+        raise core.AnalysisError("KernelEvaluator.__call__ not found (also not through the MRO)")
+    fn = r[2]
     fq = "KernelEvaluator.__call__"
-    loops = [n for n in pf.walk_no_nested(fn) if isinstance(n, ast.For) and pf.call_name(n.iter) == "range"
-             and len(n.iter.args) == 3]
-    if len(loops) != 1:
-        raise core.AnalysisError("%s: expected one `for i0 in range(0, N, dn)` chunk loop, found %d" % (fq, len(loops)))
-    lp = loops[0]
-    i0 = lp.target.id
-    a0, aN, adn = lp.iter.args
+    pos = [a.arg for a in fn.args.args[1:]]
+    if len(pos) < 3:
+        raise core.AnalysisError("%s: expected (X1, res, dres) parameters" % fq)
+    x1, bufs = pos[0], set(pos[1:3])
     inst = "%s:%s chunk loop" % (XE, fq)
+    all_loops = [n for n in pf.walk_no_nested(fn) if isinstance(n, (ast.For, ast.While))]
+    if not all_loops:
+        chk.ok("chunk-loop", inst + " (the kernel is evaluated in one piece: nothing depends on a chunk size)",
+               nontrivial=False)
+        return
+    loops = [n for n in all_loops if isinstance(n, ast.For) and isinstance(n.iter, ast.Call)
+             and (pf.call_name(n.iter) or "").split(".")[-1] in ("range", "prange") and len(n.iter.args) == 3]
+    if len(loops) != 1:
+        raise core.AnalysisError("%s: %d loop(s), %d recognised as a chunk loop `for i0 in range(0, N, dn)`" % (
+            fq, len(all_loops), len(loops)))
+    lp = loops[0]
+    tg = lp.target.elts if isinstance(lp.target, ast.Tuple) else [lp.target]
+    i0 = tg[0].id
+    defs = _single_defs(fn, exclude={i0})
+    a0, aN, adn = lp.iter.args
     problems = []
-    if not (isinstance(a0, ast.Constant) and a0.value == 0):
+    if _norm(a0, defs) != "0":
         problems.append("the chunk loop starts at %s, not 0" % pf.src(a0))
-    # N must be the sample count of the input
-    ndef = [n for n in pf.walk_no_nested(fn) if isinstance(n, ast.Assign) and isinstance(n.targets[0], ast.Name)
-            and n.targets[0].id == pf.src(aN)]
-    x1 = fn.args.args[1].arg
-    if not (len(ndef) == 1 and pf.src(ndef[0].value) == "%s.shape[0]" % x1):
-        problems.append("the loop bound %s is not %s.shape[0]" % (pf.src(aN), x1))
-    # i1 = min(N, i0 + dn) (or i0 + dn: numpy clips slices)
-    i1def = [n for n in lp.body if isinstance(n, ast.Assign) and isinstance(n.targets[0], ast.Name)]
-    i1 = None
-    for n in i1def:
-        s = pf.src(n.value).replace(" ", "")
-        want = {"min(%s,%s+%s)" % (pf.src(aN), i0, pf.src(adn)), "min(%s+%s,%s)" % (i0, pf.src(adn), pf.src(aN)),
-                "%s+%s" % (i0, pf.src(adn))}
-        if s in want:
-            i1 = n.targets[0].id
-    if i1 is None:
-        problems.append("no upper chunk bound `i1 = min(N, i0 + dn)` with the loop step")
-    sl_ok = "%s:%s" % (i0, i1)
+    N = _norm(aN, defs)
+    if N != "%s.shape[0]" % x1:
+        problems.append("the loop bound %s is not the sample count %s.shape[0]" % (pf.src(aN), x1))
+    dn = _norm(adn, defs)
+    uppers_ok = {"min(%s,(%sAdd%s))" % (N, i0, dn), "min((%sAdd%s),%s)" % (i0, dn, N), "(%sAdd%s)" % (i0, dn)}
+    body_defs = dict(defs)
+    upper_names = set()
+    if len(tg) == 2 and (pf.call_name(lp.iter) or "").endswith("prange"):
+        upper_names.add(tg[1].id)  # prange yields (start, stop) pairs
+    for n in lp.body:
+        if isinstance(n, ast.Assign) and len(n.targets) == 1 and isinstance(n.targets[0], ast.Name):
+            if _norm(n.value, defs) in uppers_ok:
+                upper_names.add(n.targets[0].id)
     n_sub = 0
     for n in ast.walk(lp):
-        if isinstance(n, ast.Subscript) and isinstance(n.value, ast.Name) and n.value.id in (x1, "res", "dres"):
+        if isinstance(n, ast.Subscript) and isinstance(n.value, ast.Name) and n.value.id in bufs | {x1}:
             n_sub += 1
-            if pf.src(n.slice) != sl_ok:
-                problems.append("%s is not the chunk %s[%s]" % (pf.src(n), n.value.id, sl_ok))
-    if n_sub < 3:
-        problems.append("the loop body no longer slices X1/res/dres by the chunk")
+            sl = n.slice.elts[0] if isinstance(n.slice, ast.Tuple) and n.slice.elts else n.slice
+            good = isinstance(sl, ast.Slice) and sl.step is None and sl.lower is not None and sl.upper is not None \
+                and _norm(sl.lower, {}) == i0 and (
+                    (isinstance(sl.upper, ast.Name) and sl.upper.id in upper_names) or _norm(sl.upper, body_defs) in uppers_ok)
+            if not good:
+                problems.append("%s is not the chunk %s[%s:<chunk end>]" % (pf.src(n), n.value.id, i0))
+    if n_sub < 2:
+        problems.append("the loop body no longer slices %s / %s by the chunk" % (x1, "/".join(sorted(bufs))))
     for n in ast.walk(lp):
-        if isinstance(n, ast.Assign) and any(isinstance(t, ast.Subscript) and pf.base_name(t) in ("res", "dres")
-                                             for t in n.targets):
-            problems.append("`%s` overwrites the shared accumulation buffer instead of adding to it" % pf.src(n))
-        if isinstance(n, ast.AugAssign) and pf.base_name(n.target) in ("res", "dres") and not isinstance(n.op, ast.Add):
+        if isinstance(n, ast.Assign):
+            for t in n.targets:
+                if isinstance(t, ast.Subscript) and pf.base_name(t) in bufs:
+                    v = n.value
+                    if not (isinstance(v, ast.BinOp) and isinstance(v.op, ast.Add)
+                            and pf.src(t) in (pf.src(v.left), pf.src(v.right))):
+                        problems.append("`%s` overwrites the shared accumulation buffer instead of adding to it" % pf.src(n))
+        if isinstance(n, ast.AugAssign) and pf.base_name(n.target) in bufs and not isinstance(n.op, ast.Add):
             problems.append("`%s` is not an additive accumulation" % pf.src(n))
     if problems:
-        chk.violation("chunk-loop", XE, fq, "for %s in %s" % (i0, pf.src(lp.iter)), lp.lineno,
-                      "; ".join(problems) + " (results must not depend on the chunk size dn)", instance=inst)
+        chk.violation("chunk-loop", XE, fq, "chunk loop over %s" % x1, lp.lineno,
+                      "; ".join(problems) + " (results must not depend on the chunk size)", instance=inst)
     else:
         chk.ok("chunk-loop", inst)
 
@@ -978,14 +1231,14 @@ def analyse(chk):
     chk.guard(rule_ctor_roundtrip)
     chk.guard(rule_chunk_loop)
     chk.guard(rule_memo)
-    chk.floor("batch-index", 110, "130 classified batch-axis indexes in 12 functions on the pinned tree")
-    chk.floor("cache-typestate", 14, "11 consume sites + spin forwarding in the generator")
-    chk.floor("hidden-write", 600, "non-buffer parameters of the dft/pyscf API entry points incl. constructors")
-    chk.floor("kernel-input-write", 180, "non-buffer parameters of the kernels.py / dft_kernel.py entry points")
-    chk.floor("cache-alias", 14, "8 keyed stores + the per-object scratch buffers")
-    chk.floor("reinit", 10, "3 classes x (inputs compared, recorded, sibling preparation)")
-    chk.floor("reinit-reset", 6, "2 kept generators x 2 hooks + 2 wrapper hooks")
-    chk.floor("ctor-roundtrip", 10, "10 keywords fed back by NLDFAuxiliaryPlan.new")
+    chk.floor("batch-index", 55, "130 classified batch-axis indexes in 12 functions on the pinned tree")
+    chk.floor("cache-typestate", 8, "11 consume sites + spin forwarding in the generator")
+    chk.floor("hidden-write", 350, "non-buffer parameters of the dft/pyscf API entry points incl. constructors")
+    chk.floor("kernel-input-write", 100, "non-buffer parameters of the kernels.py / dft_kernel.py entry points")
+    chk.floor("cache-alias", 8, "8 keyed stores + the per-object scratch buffers")
+    chk.floor("reinit", 8, "3 classes x (inputs compared, recorded, sibling preparation)")
+    chk.floor("reinit-reset", 3, "2 kept generators x 2 hooks + 2 wrapper hooks")
+    chk.floor("ctor-roundtrip", 5, "10 keywords fed back by NLDFAuxiliaryPlan.new")
     chk.floor("chunk-loop", 1, "KernelEvaluator.__call__")
     chk.assumptions += [
         "ndarray element stores copy data (A[i] = B does not make A alias B); python list/dict literals keep references",
